@@ -270,6 +270,8 @@ class Context:
             len(self.samples) < 8 and self.evaluations % 997 == 0
         ):
             describe = getattr(self.module, "describe", None)
+            if case.get("setup"):
+                describe = None
             self.samples.append({"case": describe(case) if describe else case, "verdict": res["cls"]})
 
     def note(self, msg):
@@ -304,7 +306,7 @@ def attribute(module, failures):
     unexplained = []
     for case, res in failures:
         hit = None
-        for e in entries:
+        for e in entries if not case.get("setup") else []:  # a failed setup belongs to no recorded finding
             pred = preds.get(e["id"])
             if pred is None:
                 raise HarnessError(f"known finding {e['id']} has no predicate in {module.__name__}")
